@@ -4,6 +4,7 @@
 package loginpeer
 
 import (
+	"errors"
 	"context"
 	"crypto/rand"
 	"crypto/rsa"
@@ -206,6 +207,23 @@ func Run(cfg Config, s Script, ctxTimeout time.Duration) (res Result) {
 	sess := NewSession(cfg)
 	defer sess.Close()
 	return sess.Login(cfg, s, ctxTimeout)
+}
+
+// Patient reports whether a failed login should be repeated with a long deadline before it is
+// judged: the login was expected to succeed and failed with nothing but the caller's deadline
+// (a machine busy with other work, not the library).
+func Patient(res Result) bool {
+	return res.Panic == nil && !res.TimedOut && res.Err != nil && errors.Is(res.Err, context.DeadlineExceeded)
+}
+
+// RunPatient is Run for logins that are expected to succeed: a failure by deadline alone is
+// repeated once with ten times the deadline.
+func RunPatient(cfg Config, s Script, ctxTimeout time.Duration) Result {
+	res := Run(cfg, s, ctxTimeout)
+	if Patient(res) {
+		res = Run(cfg, s, 10*ctxTimeout)
+	}
+	return res
 }
 
 // Login performs one login over the session's connection (a fresh LoginConfig each time).
